@@ -47,6 +47,14 @@ NESTED_VENDOR = [
     ("t1 = T('t')\nt2 = T('u')\n"
      "s1 = Query.from_(t2).select(fn.Coalesce(t2.a, Interval(days=2)), Case().when(t2.b > Interval(minutes=5), Array(1)).else_(Array(2, 3)))\n"
      "q2 = Query.from_(t1).select(fn.Coalesce(t1.a, Interval(hours=1)), fn.Max(Interval(days=3))).where(t1.a.isin(s1))", "q2"),
+    # a set operation ordered by an alias its operands select, and an aliased set operation as FROM / JOIN item: alias quoting
+    # and the AS keyword follow the statement like everywhere else
+    ("t1 = T('t')\nt2 = T('u')\n"
+     "q2 = Query.from_(t1).select(t1.a.as_('al0'), t1.b).union(Query.from_(t2).select(t2.a.as_('al0'), t2.b)).orderby(t1.a.as_('al0'))", "q2"),
+    ("t1 = T('t')\nt2 = T('u')\nt3 = T('v')\n"
+     "so = Query.from_(t1).select(t1.a.as_('al0')).union_all(Query.from_(t2).select(t2.a.as_('al0'))).as_('sq_q1')\n"
+     "s1 = Query.from_(t3).select(t3.a.as_('al2')).as_('sq_q2')\n"
+     "q2 = Query.from_(so).join(s1).on(so.al0 == s1.al2).select(so.al0.as_('al4'))", "q2"),
     # vendor forms inside the temporal clause of a table (FOR … AS OF / FOR PORTION OF): same statement, same dialect
     ("t1 = T('t')\nt2 = T('u').for_(terms.SystemTimeValue().as_of(fn.Now() - Interval(hours=1)))\n"
      "q2 = Query.from_(t1).join(t2).on(t1.a == t2.a).select(t1.a).where(t1.c > Interval(hours=1))", "q2"),
